@@ -104,9 +104,13 @@ def model_check(module, cfg, tag, **kw):
 
 
 def expect_violation(module, cfg, tag, name=None, **kw):
-    """Deviation-constant run: TLC must report a violation (of invariant `name` if given)."""
+    """Deviation-constant run: TLC must report a violation (of invariant `name`, or one of a tuple of names, if given).
+    Runs with ONE worker unless told otherwise: which of several violated invariants TLC reports first must not depend
+    on thread scheduling (a flaky MACHINERY-FAILURE on an unchanged tree would discredit the check)."""
+    kw.setdefault("workers", 1)
     r = run_tlc(module, cfg, tag, **kw)
-    if not r["violated"] or (name and r["violated"] != name):
+    names = (name,) if isinstance(name, str) else tuple(name or ())
+    if not r["violated"] or (names and r["violated"] not in names):
         raise MachineryError("expected violation %s in %s/%s, got %s:\n%s" %
                              (name, module, cfg, r["violated"], _tail(r["out"])))
     return r
